@@ -506,18 +506,17 @@ http_parse_req_line(const uint8_t *http_hdr, size_t hdr_size,
 			req_data->scheme_size = (size_t)(ptm - req_data->scheme);
 			/* host & port */
 			req_data->host = (ptm + 3);
-			ptm = mem_chr_ptr(req_data->host,
-			    req_data->uri, req_data->uri_size, '/');
-			if (NULL == ptm) {
-				ptm = pspace; // = (req_data->uri + req_data->uri_size);
-			}
+			/* authority ends at the first '/' or '?' (RFC 3986 3.2). */
+			for (ptm = req_data->host; ptm < pspace &&
+			    '/' != (*ptm) && '?' != (*ptm); ptm ++)
+				;
 			req_data->host_size = (size_t)(ptm - req_data->host);
 		} else {
 			ptm = req_data->uri;
 		}
 		/* abs_path */
 		/* Skip slash~s from head. */
-		while (ptm < (pspace - 1) && '/' == ptm[1]) {
+		while (ptm < (pspace - 1) && '/' == ptm[0] && '/' == ptm[1]) {
 			ptm ++;
 		}
 		req_data->abs_path = ptm;
